@@ -13,7 +13,8 @@ RULE = ("cases = parameterisations of forest / De Moor / Hendrix / Mirjalili acc
         "settings plus random draws (useful life 1..5, lead time 1..4, order limits 1..4, demand limits 1..12, gamma mean/CoV and "
         "negative-binomial n/delta over two decades, Poisson means 0.5..30, substitution probability {0,.3,.5,1}, logit "
         "coefficients of both signs, fire probability {0,1e-6,.1,.5,1}), each with its complete table (<= 2.5e5 entries quick, "
-        "1e6 thorough). evaluations = parameterisations; n_obs = table entries / triples judged; distinct = distinct "
+        "1e6 thorough); one case in three is followed IN THE SAME PROCESS by 1-2 sibling instances with the same structure but "
+        "other cost / distribution parameters (results must not depend on what was built or traced before). evaluations = parameterisations; n_obs = table entries / triples judged; distinct = distinct "
         "(problem, parameter class, size class).")
 ASSUMPTIONS = ["vf.refproblems (pure Python / scipy closed forms, written from the docstrings) is the documented model",
                "64-bit mode is enabled before the problem is built (float32 construction is C20's concern)",
@@ -30,7 +31,7 @@ def gen_cases(seed, tier):
 def run_case(case):
     from vf import shipcheck
 
-    return shipcheck.c13(shipcheck.load(case))
+    return shipcheck.run_with_siblings(case, shipcheck.c13)
 
 
 def aggregate(records, cases):
@@ -38,7 +39,9 @@ def aggregate(records, cases):
     per = {}
     for r in ok:
         per[r["cls"][0]] = per.get(r["cls"][0], 0) + 1
-    out = dict(parameterisations_per_problem=per, table_entries_judged=sum(r.get("n_obs", 0) for r in ok))
+    out = dict(parameterisations_per_problem=per, table_entries_judged=sum(r.get("n_obs", 0) for r in ok),
+               instances_built=sum(r.get("instances", 1) for r in ok),
+               cases_with_sibling_instances=sum(1 for r in ok if r.get("instances", 1) > 1))
     for k in ("worst_dev", "worst_err", "undefined"):
         vals = [r[k] for r in ok if r.get(k) is not None and r["status"] == "ok"]
         if vals:
